@@ -178,7 +178,8 @@ void Search::stop()
 void Search::go()
 {
     init_search();
-    stop_search = false;
+    // stop_search is initialised by the constructor; resetting it here would lose a stop()
+    // that arrives between the construction of the search and the start of its thread
     _start_time = std::chrono::steady_clock::now();
 
     // check if there is only one move to make
